@@ -102,6 +102,14 @@ def make_state(doc, state):
         else:
             other = [s for s in secs if s is not p.parent]
             p.new_id((other[0] if other else secs[0]).id)
+    elif state == "duplicate-ids-spelled-differently":
+        # the id of another object handed to new_id in another accepted spelling (upper case, braces, urn, no hyphens)
+        props = [p for s in secs for p in s.properties]
+        p = props[-1] if props else odml.Property("only", values=[1], parent=secs[-1])
+        other = [s for s in secs if s is not p.parent]
+        oid = (other[0] if other else secs[0]).id
+        spelled = [oid.upper(), "{%s}" % oid, "urn:uuid:" + oid, oid.replace("-", "")][len(secs) % 4]
+        p.new_id(spelled)
     elif state in ("many-warnings-then-error", "many-errors"):
         # a long issue list: 30 Sections that each draw a warning ahead of the one error / 30 errors
         for i in range(30):
@@ -125,7 +133,7 @@ def make_state(doc, state):
 
 STATES = ["valid", "warnings-only", "untyped-section", "duplicate-ids", "duplicate-ids-cross-branch-prop",
           "duplicate-ids-cross-branch-sec", "duplicate-ids-prop-equals-section", "duplicate-ids-prop-equals-document",
-          "duplicate-section", "duplicate-property", "many-warnings-then-error", "many-errors"]
+          "duplicate-ids-spelled-differently", "duplicate-section", "duplicate-property", "many-warnings-then-error", "many-errors"]
 
 
 def faults_for(fmt):
